@@ -15,7 +15,7 @@ impl Check for C14 {
         vec![]
     }
     fn rule(&self) -> &'static str {
-        "Random programs over the clause grammar: fresh `|x, y| { }`, `==`, `!=`, `[g, ...]` conjunctions at top level and directly inside operator bodies, conde with 2-4 clauses, conda / condu with bracketed `[head, rest...]` clauses whose head may be the literal true/false, closure { }, loop { } prefixes (infinite: a 40-answer prefix is checked for soundness), relation calls (member, append, cons, first) with tree-term and `{expr}` arguments, true/false, all four literal kinds incl. the empty string and strings with spaces, nested proper/improper lists (improper inside proper and vice versa), `_` in every position incl. improper tails, compound constructors (unnamed Pair/Triple structs and Rust tuples) at the top of an argument, 1-4 query variables DECLARED in an order different from their use order. Each AST is emitted as Rust source (proto_vulcan_query!), compiled against the current tree and run: the answers per query variable, in declaration order, must equal the reference evaluation of the AST and the API-built twin; the Display of the result struct must list the variables in declaration order; every answer variable must be reified; a second next() after None must return None. Separately, 400-4000 random terms are written with lterm! and compared structurally with the written term. A generated program that fails to compile while the library compiles is a violation. Distinct = distinct AST / term; non-trivial = the reference has at least one answer."
+        "Random programs over the clause grammar: fresh `|x, y| { }`, `==`, `!=`, `[g, ...]` conjunctions at top level and directly inside operator bodies, conde with 2-4 clauses, conda / condu / onceo with bracketed `[head, rest...]` clauses whose head may be the literal true/false (also as the main goal of dedicated programs), closure { }, loop { } prefixes (infinite: a 40-answer prefix is checked for soundness), relation calls (member, append, cons, first) with tree-term and `{expr}` arguments, true/false, all four literal kinds incl. the empty string and strings with spaces, nested proper/improper lists (improper inside proper and vice versa), `_` in every position incl. improper tails, compound constructors (unnamed Pair/Triple structs and Rust tuples) at the top of an argument, 1-4 query variables DECLARED in an order different from their use order. Each AST is emitted as Rust source (proto_vulcan_query!), compiled against the current tree and run: the answers per query variable, in declaration order, must equal the reference evaluation of the AST and the API-built twin; the Display of the result struct must list the variables in declaration order; every answer variable must be reified; a second next() after None must return None. Separately, 400-4000 random terms are written with lterm! and compared structurally with the written term. A generated program that fails to compile while the library compiles is a violation. Distinct = distinct AST / term; non-trivial = the reference has at least one answer."
     }
     fn assumptions(&self) -> Vec<String> {
         vec!["reference: pvmon::refsem".into(), "the emitter stays inside the documented grammar (non-negative integer literals, compounds only at the top of an argument)".into()]
@@ -27,7 +27,7 @@ impl Check for C14 {
         }
     }
     fn required_counters(&self) -> Vec<&'static str> {
-        vec!["programs_compiled_and_run", "reference_compared", "api_twin_compared", "lterm_terms_compared", "tag_finite", "tag_loop-prefix"]
+        vec!["programs_compiled_and_run", "reference_compared", "api_twin_compared", "lterm_terms_compared", "tag_finite", "tag_loop-prefix", "tag_commit"]
     }
     fn run_batch(&self, tier: Tier, seed: u64) -> Option<Merged> {
         let n = if tier == Tier::Thorough { 6000 } else { 500 };
@@ -36,6 +36,11 @@ impl Check for C14 {
             let mut rng = Rng::for_case(seed, "c14", i as u64);
             let (prog, infinite) = grammar_program(&mut rng);
             cases.push(SurfCase { prog, naming: if i % 2 == 0 { Naming::Clash } else { Naming::Distinct }, twin_of: None, infinite, tag: if infinite { "loop-prefix" } else { "finite" } });
+        }
+        let ncommit = if tier == Tier::Thorough { 1500 } else { 120 };
+        for i in 0..ncommit {
+            let mut rng = Rng::for_case(seed, "c14-commit", i as u64);
+            cases.push(SurfCase { prog: commit_surface_program(&mut rng), naming: Naming::Clash, twin_of: None, infinite: false, tag: "commit" });
         }
         let nl = if tier == Tier::Thorough { 4000 } else { 400 };
         let mut lterms = vec![];
